@@ -192,6 +192,8 @@ struct EnvState {
     new_tx_since_probe: bool,
     /// bumped by every port call and every hook
     activity: u64,
+    /// set when a drive did not reach quiescence (busy loop without time passing)
+    spinning: bool,
 }
 
 type Env = Arc<Mutex<EnvState>>;
@@ -496,6 +498,8 @@ pub struct World {
     manual_seq: usize,
     oracle: Oracle,
     judged: usize,
+    /// a busy loop was seen: no further letters
+    dead: bool,
     history: Vec<Op>,
     svc: Option<Svc>,
     rt: tokio::runtime::Runtime,
@@ -579,7 +583,9 @@ async fn idle(env: &Env) {
             break;
         }
         if round > SPIN_LIMIT {
-            machinery_failure("C24 harness: the service keeps running without time passing (busy loop), quiescence not reached");
+            // the service keeps running without time passing; the caller decides what that means
+            env.lock().unwrap().spinning = true;
+            return;
         }
     }
     MAX_ACTIVE_ROUND.fetch_max(last_active, std::sync::atomic::Ordering::Relaxed);
@@ -651,6 +657,7 @@ impl Subject for Poa {
                 sync: SyncProbe::default(),
                 new_tx_since_probe: false,
                 activity: 0,
+                spinning: false,
             }));
             install_sink(&env);
             // the sync task's interval timer is created inside `new_service`
@@ -692,6 +699,7 @@ impl Subject for Poa {
             manual_seq: 0,
             oracle: Oracle { k_h: START_HEIGHT, k_t: BASE_TAI - 3, last_own_commit: None, last_attempt: None, open_attempt: None },
             judged: 0,
+            dead: false,
             history: vec![],
             svc: Some(svc),
             rt,
@@ -704,6 +712,9 @@ impl Subject for Poa {
     }
 
     fn enabled(&self, w: &World) -> Vec<Op> {
+        if w.dead {
+            return vec![];
+        }
         let mut v = vec![Op::Advance];
         let open = matches!(self.trigger, Trigger::Open { .. });
         // one-second steps matter where block timestamps follow the elapsed time
@@ -909,6 +920,13 @@ impl Subject for Poa {
         w.manual = still;
         verif_hooks::set_sink(None);
         self.judge(w, true)?;
+        if env.lock().unwrap().spinning {
+            // A busy loop without time passing that the oracle has nothing to say about: outside
+            // this property. The state gets no successors and the fact is recorded in the evidence.
+            self.note("the service kept running without time passing (busy loop); state not expanded further", w);
+            w.dead = true;
+            return Ok("busy loop without time passing".into());
+        }
         let e = env.lock().unwrap();
         let obs: Vec<String> = e.events[first_event..].iter().map(|(at, ev)| format!("+{}ms {}", at.saturating_sub(at0).as_millis(), fmt_ev(ev, base_h, base_t))).collect();
         Ok(obs.join("; "))
@@ -1140,6 +1158,13 @@ pub fn run(cli: &Cli) {
         ("Interval10s", Trigger::Interval { block_time: Duration::from_secs(BLOCK_TIME) }),
         ("Instant", Trigger::Instant),
     ];
+    // depth bound per trigger: (quick, thorough); thorough also allows 2 faults and the larger alphabet
+    let depth_of = |name: &str| -> (usize, usize) {
+        match name {
+            "Open10s" => (6, 9),
+            _ => (6, 7),
+        }
+    };
     let mk = |name: &str, trigger: Trigger, canon: CanonMode| Poa { name: format!("poa[{name},{canon:?}]"), trigger, canon, thorough, notes: Mutex::new(BTreeMap::new()) };
     if let Some(path) = &cli.replay {
         let rf = load_replay(path);
@@ -1199,7 +1224,7 @@ pub fn run(cli: &Cli) {
     }
     let mut run = Run::new(cli, "model_checking");
     let envn = |k: &str| std::env::var(k).ok().and_then(|v| v.parse::<u64>().ok());
-    let depth = envn("VH_POA_DEPTH").map(|d| d as usize).unwrap_or(cli.tier.pick(6, 8));
+    let depth_override = envn("VH_POA_DEPTH").map(|d| d as usize);
     let devs = cli.tier.pick(1, 2);
     let tree_depth = cli.tier.pick(3, 4);
     // one wall budget for the whole check; each search may use what is left of it
@@ -1207,23 +1232,29 @@ pub fn run(cli: &Cli) {
     let t_start = std::time::Instant::now();
     let left = || budget.saturating_sub(t_start.elapsed().as_secs()).max(2);
     let mut notes: BTreeMap<String, (u64, String)> = BTreeMap::new();
-    for (n, t) in &triggers {
-        // (a) state-merged search to the full depth
-        let s = mk(n, *t, CanonMode::State);
-        let r = explore(&s, &Bounds::new(depth, cli).deviations(devs).wall(left()).states(cli.tier.pick(300_000, 3_000_000)));
-        // (b) adequacy of the state key: a pure tree search (every history its own state) to a
+    for (i, (n, t)) in triggers.iter().enumerate() {
+        let (dq, dt) = depth_of(n);
+        let depth = depth_override.unwrap_or(cli.tier.pick(dq, dt));
+        // fair share of what is left of the budget for this trigger
+        let share = (left() / (triggers.len() - i) as u64).max(2);
+        let t_subject = std::time::Instant::now();
+        let left = || share.saturating_sub(t_subject.elapsed().as_secs()).max(2);
+        // (a) adequacy of the state key: a pure tree search (every history its own state) to a
         // smaller depth must not see any observation the merged search does not see
         let st = mk(n, *t, CanonMode::State);
         let rs = explore(&st, &Bounds::new(tree_depth, cli).deviations(devs).wall(left()));
         let tr = mk(n, *t, CanonMode::History);
         let rt = explore(&tr, &Bounds::new(tree_depth, cli).deviations(devs).wall(left()));
+        // (b) state-merged search to the full depth
+        let s = mk(n, *t, CanonMode::State);
+        let r = explore(&s, &Bounds::new(depth, cli).deviations(devs).wall(left()).states(cli.tier.pick(300_000, 4_000_000)));
         if rs.exhaustive && rt.exhaustive && rs.violations.is_empty() && rt.violations.is_empty() && rs.distinct_observations != rt.distinct_observations {
             machinery_failure(&format!(
                 "{n}: state key is not adequate: merged search sees {} distinct observations at depth {tree_depth}, the tree search {}",
                 rs.distinct_observations, rt.distinct_observations
             ));
         }
-        run.note(&format!("state_key_cross_check[{n}]"), json!({"depth": tree_depth, "merged_states": rs.states, "tree_states": rt.states, "distinct_observations": rt.distinct_observations}));
+        run.note(&format!("state_key_cross_check[{n}]"), json!({"depth": tree_depth, "completed": rs.exhaustive && rt.exhaustive, "merged_distinct_observations": rs.distinct_observations, "merged_states": rs.states, "tree_states": rt.states, "distinct_observations": rt.distinct_observations}));
         for subj in [&s, &st, &tr] {
             for (k, (c, ex)) in subj.notes.lock().unwrap().iter() {
                 let e = notes.entry(k.clone()).or_insert((0, ex.clone()));
